@@ -115,6 +115,7 @@ def rule_flags(ctx):
         se = StackEval(repo)
         okc = 0
         fails = []
+        wrong = []
         for ax in (False, True):
             for vec in itertools.product([False, True], repeat=len(FLAGS)):
                 given = {k: ("const", v) for k, v in zip(FLAGS, vec)}
@@ -127,6 +128,16 @@ def rule_flags(ctx):
                     fails.append((label, se.errors[0][1] if se.errors else show(v)))
                 elif v[0] == "inst" and v[1].name == "YowStack":
                     okc += 1
+                    got = flatten(v[3][0]) if len(v) > 3 and v[3] else None
+                    want = results.get(vec)
+                    if got is None or want is None:
+                        ctx.undecided("C18.flags", where(YS, "YowStackBuilder.getDefaultStack", gds.lineno), "getDefaultStack(%s)" % label, "layer tuple handed to YowStack not resolved")
+                    else:
+                        def names(ls):
+                            return [x.name if not isinstance(x, list) else sorted(y.name for y in x) for x in ls]
+                        if names(got) != names(want):
+                            gp, wp = set(names(got)[-1]) if isinstance(names(got)[-1], list) else set(), set(names(want)[-1]) if isinstance(names(want)[-1], list) else set()
+                            wrong.append((label, sorted(gp - wp), sorted(wp - gp)))
                 else:
                     ctx.undecided("C18.flags", where(YS, "YowStackBuilder.getDefaultStack", gds.lineno), "getDefaultStack(%s)" % label, "does not evaluate to YowStack(...): " + show(v))
         wg = where(YS, "YowStackBuilder.getDefaultStack", gds.lineno)
@@ -135,6 +146,9 @@ def rule_flags(ctx):
                         "%d of 32 argument combinations raise, e.g. %s: %s" % (len(fails), fails[0][0], fails[0][1]))
         elif okc:
             ctx.hold("C18.flags", wg, "getDefaultStack over 32 combinations", "%d of 32 argument combinations construct a YowStack" % okc)
+        ctx.check("C18.flags", not wrong, wg, "getDefaultStack builds the layers its flags select",
+                  "%d of 32 combinations build a stack with other modules than the flags select, e.g. %s: has %s, lacks %s" % ((len(wrong),) + (wrong[0] if wrong else ("", "", ""))),
+                  "the stack of every combination holds exactly the layers getDefaultLayers selects for the same flags")
     ctx.units["C18.default_full"] = [x.name if not isinstance(x, list) else [y.name for y in x] for x in (full or [])]
 
 
@@ -372,6 +386,54 @@ def rule_stop(ctx):
         and any(isinstance(r, ast.Return) for r in ast.walk(poe))
     ctx.check("C18.stop", ok, where(LAYERS, "YowParallelLayer.onEvent", poe.lineno), "group onEvent",
               "the group must consult its members' onEvent in stack order and return whether one of them consumed the event", "members consulted in order, result returned")
+    # ... decided by abstract execution over every vector of member answers (3 members): the group's answer is true
+    # iff a consulted member consumed the event, members are consulted in stack order, and nobody is skipped unless a
+    # member before it consumed the event
+    import itertools
+    from ..absint import Interp, Obj, _Raise, C_NONE
+    par = repo.cls(LAYERS, "YowParallelLayer")
+    base = repo.cls(LAYERS, "YowLayer")
+    bad = []
+    nvec = 0
+    for vec in itertools.product((False, True), repeat=3):
+        consulted = []
+        it = Interp(repo, {}, {}, hooks={})
+        members = [("obj", Obj(base)) for _ in vec]
+        grp = ("obj", Obj(par))
+        grp[1].fields["sublayers"] = ("list", list(members))
+
+        def on_event(itp, recv, a, k, env, d, e, members=members, vec=vec, consulted=consulted):
+            for i, mb in enumerate(members):
+                if recv[1] is mb[1]:
+                    consulted.append(i)
+                    return ("c", vec[i])
+            return None
+        it.hooks["method:onEvent"] = on_event
+        ev = Obj(repo.cls(LAYERS, "YowLayerEvent"))
+        ev.fields.update({"name": ("c", "ev"), "detached": ("c", False), "args": ("dict", {})})
+        try:
+            r = it.call_function(poe, par, grp, [("obj", ev)], {}, depth=0)
+        except _Raise as ex:
+            bad.append("answers %s: raises %s" % (list(vec), ex.text[:50]))
+            continue
+        except Exception as ex:
+            bad.append("answers %s: not decided (%s)" % (list(vec), type(ex).__name__))
+            continue
+        nvec += 1
+        if r[0] != "c":
+            bad.append("answers %s: the group's answer is not a definite value (%s)" % (list(vec), r[0]))
+            continue
+        want = any(vec[i] for i in consulted)
+        if bool(r[1]) != want:
+            bad.append("member answers %s: the group answers %r although %s" % (list(vec), r[1], "member %d consumed the event" % [i for i in consulted if vec[i]][0] if want else "no member consumed it"))
+        if consulted != sorted(consulted) or len(set(consulted)) != len(consulted):
+            bad.append("member answers %s: members consulted in order %s" % (list(vec), consulted))
+        first_true = min([i for i in range(3) if vec[i]], default=3)
+        missing = [i for i in range(3) if i not in consulted and i <= first_true]
+        if missing:
+            bad.append("member answers %s: member %s never sees the event" % (list(vec), missing))
+    ctx.check("C18.stop", not bad and nvec == 8, where(LAYERS, "YowParallelLayer.onEvent", poe.lineno), "group onEvent over all member answer vectors",
+              "; ".join(bad[:2]) + ": a consumed event keeps propagating past the group (or a member is skipped)", "8 answer vectors: consumed iff a consulted member consumed it")
 
 
 def rule_par(ctx):
@@ -407,7 +469,7 @@ def run(ctx):
     ctx.rule("C18.flags", "16 default compositions and 32 default-stack combinations", floor=36)
     ctx.rule("C18.wire", "wiring order and entry points", floor=9)
     ctx.rule("C18.mirror", "emit/broadcast siblings mirror each other", floor=4)
-    ctx.rule("C18.stop", "stop-on-true, detached deferral, loop", floor=9)
+    ctx.rule("C18.stop", "stop-on-true, detached deferral, loop", floor=10)
     ctx.rule("C18.par", "group method substitution and interface lookup", floor=8)
     rule_bind(ctx)
     rule_flags(ctx)
